@@ -138,8 +138,12 @@ AttachEv(gg, t1) == [k |-> "attach", w |-> gg.w, h |-> gg.h, sb |-> gg.sb, tab |
 Init ==
   \E w \in Ws, h \in Hs, sb \in SBs, tab \in TABs :
     LET gg == [w |-> w, h |-> h, sb |-> sb, tab |-> tab, fg |-> 7, bg |-> 0]
-        mm == Mon(S0, AttachEv(gg, T0(gg)))
-    IN /\ g = gg /\ t = T0(gg) /\ nops = 0 /\ script = <<>>
+        \* the terminal is attached while inactive (the order hal.linkTTYToConsole uses); the design mutant
+        \* activates it first: AttachTo never draws, so the activation redraw is lost
+        a0 == IF Bug = "ActiveAtAttach" THEN 1 ELSE 0
+        t0 == [T0(gg) EXCEPT !.st = a0]
+        mm == Mon([S0 EXCEPT !.act = a0], AttachEv(gg, t0))
+    IN /\ g = gg /\ t = t0 /\ nops = 0 /\ script = <<>>
        /\ m = mm.s /\ mismatch = FirstFail(Props, 0, mm.cs)
 
 Ops == {<<0, b>> : b \in Bytes} \cup {<<1, x, y>> : x \in CurVals, y \in CurVals} \cup {<<2, 0>>, <<2, 1>>}
